@@ -92,10 +92,11 @@ class Watch(object):
             _STATE["active"] = False
         names = list(_STATE["names"])
         canary = list(builtins._verif_canary_log)
-        for mod, _ in CANARIES:
-            sys.modules.pop(mod, None)
-        roots = set(n.split(".")[0] for n in names)
-        roots |= set(n for k, n in canary if k == "import")
+        for key in [k for k, m in list(sys.modules.items())
+                    if (getattr(m, "__file__", None) or "").startswith(self.dir)]:
+            sys.modules.pop(key, None)      # also odd spellings such as ".q"
+        roots = set(n.lstrip(".").split(".")[0] for n in names)
+        roots |= set(n.lstrip(".").split(".")[0] for k, n in canary if k == "import")
         roots.discard("")
         constructs = [c for k, c in canary if k == "construct"]
         return out, sorted(roots), constructs
